@@ -45,6 +45,23 @@ pub fn build_history(rng: &mut Rng, n: usize, pool: usize) -> Vec<Call> {
         for s in ["@", "@+1", "@*@", "1/0", "(", "2+", "w(-5)", "min(@,1)", "99!", "1.2.3", "@!", "abs(@)-@", "med(3,@,1)", "2^@"] {
             exprs.push((ev, s.to_string()));
         }
+        // aggregates whose outcome depends on the order in which the arguments are folded (an overflow
+        // competing with a zero, a NaN among numbers, a failing argument among good ones): an evaluation
+        // that visits its arguments in an order of its own (a hash set, a parallel fold) answers the same
+        // call differently from time to time (seeded change C16-r8)
+        if ev != Ev::Cpx {
+            let vals: Vec<&str> = match ev {
+                Ev::I64 => vec!["0", "3", "6", "(0-1)", "4611686018427387904", "9223372036854775807", "(0-9223372036854775807-1)", "(1/0)", "@", "4294967296", "2", "18"],
+                Ev::Dec => vec!["0", "3", "0.5", "(0-1)", "79228162514264337593543950335", "0.0000000000000000000000000001", "(1/0)", "@", "(0-79228162514264337593543950335)", "2.50"],
+                _ => vec!["0", "3", "0.5", "(0-1)", "(0/0)", "(1/0)", "(0-1/0)", "(0*(0-1))", "@", "179769313486231570000000000000000000000", "9007199254740993", "w(0-5)"],
+            };
+            let names: Vec<&str> = if ev == Ev::I64 { vec!["min", "max", "avg", "med", "gcd", "lcm", "gcd", "lcm"] } else { vec!["min", "max", "avg", "med", "median"] };
+            for _ in 0..10 {
+                let k = 3 + rng.below(4);
+                let args: Vec<&str> = (0..k).map(|_| *rng.pick(&vals)).collect();
+                exprs.push((ev, format!("{}({})", *rng.pick(&names), args.join(","))));
+            }
+        }
     }
     let mut h: Vec<Call> = vec![];
     while h.len() < n {
@@ -202,6 +219,7 @@ fn confusable(ev: Ev) -> Vec<Vec<Val>> {
 }
 
 fn run_call(c: &Call, yield_every: u64) -> Outcome {
+    crate::driver::progress();
     let len = c.expr.chars().count();
     sut::call_with(c.ev, &c.expr, &c.ph, sut::c02_budget(len), yield_every).outcome
 }
